@@ -145,7 +145,11 @@ func (r *Run) intBigFromWords(w []*Term) *BigV {
 // unitLen forks on the number of base-2^k digits of a non-negative value.
 func (r *Run) unitLen(v *Term, k int) int {
 	if v.lo.Sign() < 0 {
-		panic(unsupported("digits of a possibly negative big.Int"))
+		// the interval does not exclude a negative value: let the solver decide (the negative side, if feasible, is unsupported)
+		if r.branch(r.ts.ILt(v, r.ts.IConst(bigZero))) {
+			panic(unsupported("digits of a possibly negative big.Int"))
+		}
+		r.ts.refine(v, bigZero, v.hi)
 	}
 	max := (v.hi.BitLen() + k - 1) / k
 	for n := 0; n < max; n++ {
